@@ -20,6 +20,40 @@ proof fn lemma_trim_zeros(p: Seq<Fe>, d: int)
     ensures 0 <= trim(p, d) <= d, forall|k: int| trim(p, d) <= k < d ==> fe_v(#[trigger] p[k]) == 0
     decreases d
 { if d > 0 && fe_v(p[d - 1]) == 0 { lemma_trim_zeros(p, d - 1); } }
+proof fn lemma_trim_take(p: Seq<Fe>, n: int, d: int)
+    requires 0 <= d <= n <= p.len()
+    ensures trim(p.take(n), d) == trim(p, d)
+    decreases d
+{ if d > 0 && fe_v(p[d - 1]) == 0 { lemma_trim_take(p, n, d - 1); } }
+// truncating to degree + 1 yields a polynomial whose length is its degree + 1
+proof fn lemma_take_deg(p: Seq<Fe>)
+    requires p.len() >= 1
+    ensures spec_deg(p.take(spec_deg(p) + 1)) + 1 == spec_deg(p) + 1, 0 <= spec_deg(p) < p.len()
+{
+    lemma_trim_zeros(p, p.len() as int);
+    let t = trim(p, p.len() as int);
+    let d = spec_deg(p);
+    let r = p.take(d + 1);
+    lemma_trim_take(p, d + 1, d + 1);
+    if t > 0 {
+        // t - 1 == d and p[t-1] != 0 (else trim would have continued)
+        assert(trim(p, t) == t) by { lemma_trim_fix(p, p.len() as int); }
+    } else {
+        assert(trim(p, 1) <= 1) by { lemma_trim_zeros(p, 1); }
+    }
+}
+// trim is idempotent: trim(p, trim(p, d)) == trim(p, d)
+proof fn lemma_trim_fix(p: Seq<Fe>, d: int)
+    requires 0 <= d <= p.len()
+    ensures trim(p, trim(p, d)) == trim(p, d)
+    decreases d
+{ if d > 0 && fe_v(p[d - 1]) == 0 { lemma_trim_fix(p, d - 1); } }
+// no pair (i', j) with i' < i, j < qs reaches a coefficient index k >= i + qs - 1
+proof fn lemma_conv_top(p: Seq<Fe>, q: Seq<Fe>, k: int, i: int, qs: int)
+    requires 0 <= i, k >= i + qs - 1
+    ensures conv_upto(p, q, k, i, qs) == 0
+    decreases i
+{ if i > 0 { lemma_conv_top(p, q, k, i - 1, qs); } }
 // the term row i contributes to coefficient k
 pub open spec fn row_term(p: Seq<Fe>, q: Seq<Fe>, k: int, i: int, jmax: int) -> int
 { if i <= k < i + jmax { fe_v(p[i]) * fe_v(q[k - i]) } else { 0 } }
@@ -64,7 +98,9 @@ requires
     q@.len() >= 1,
     p@.len() + q@.len() <= usize::MAX,
 ensures
-    1 <= r@.len() <= spec_deg(p@) + spec_deg(q@) + 2,
+    1 <= r@.len() <= spec_deg(p@) + spec_deg(q@) + 1,
+    // the result is trimmed to its own degree
+    spec_deg(r@) + 1 == r@.len(),
     // coefficient k of the result is the convolution sum_{i+j=k} p[i]*q[j] over the degree-trimmed inputs
     forall|k: int| 0 <= k < r@.len() ==> cong(fe_v(#[trigger] r@[k]), conv_upto(p@, q@, k, spec_deg(p@) + 1, spec_deg(q@) + 1)),
     // nothing non-zero was trimmed away
@@ -106,8 +142,210 @@ invariant
     assert forall|k: int| 0 <= k < out@.len() implies cong(fe_v(#[trigger] out@[k]), conv_upto(p@, q@, k, p_size as int, q_size as int)) by {}
     let dd = spec_deg(out@);
     lemma_trim_zeros(out@, out@.len() as int);
+    lemma_take_deg(out@);
+    // the top slot p_size + q_size - 1 is never written: its convolution sum is empty, so it is zero and trimmed
+    lemma_conv_top(p@, q@, out@.len() - 1, p_size as int, q_size as int);
+    axiom_fe_range(out@[out@.len() - 1]);
+    lemma_cong_eq(fe_v(out@[out@.len() - 1]), 0);
+    assert(trim(out@, out@.len() as int) == trim(out@, out@.len() - 1));
+    lemma_trim_zeros(out@, out@.len() - 1);
     assert forall|k: int| dd < k < out@.len() implies cong(0, #[trigger] conv_upto(p@, q@, k, p_size as int, q_size as int)) by {
         lemma_cong_sym(fe_v(out@[k]), conv_upto(p@, q@, k, p_size as int, q_size as int));
     }
 ''')])
+    # ---- poly_range_check(start, end): the polynomial prod_{i=start}^{end-1} (x - i)  (vanishes exactly on [start, end) when p is prime)
+    u.raw(PRODUCT, 'product')
+    u.raw('''
+#[verifier::external_body]
+fn fe_from_usize(i: usize) -> (r: Fe) ensures fe_v(r) == (i as int) % P() { unimplemented!() }
+// prod_{i=a}^{b-1} (x - i)
+pub open spec fn range_prod(x: int, a: int, b: int) -> int decreases b - a
+{ if b <= a { 1 } else { range_prod(x, a, b - 1) * (x - (b - 1)) } }
+''', 'range-spec')
+    u.item(PF, ['fn poly_range_check'], ret='r',
+           rewrites=[(r'<F: NttFriendlyFieldElement>', '', 1), (r'\bF::one\(\)', 'fe_one()', '*'), (r'\bF::zero\(\)', 'fe_zero()', '*'),
+                     (r'\bF::from\(F::Integer::try_from\(i\)\.unwrap\(\)\)', 'fe_from_usize(i)', 1),
+                     (r'let mut q = \[fe_zero\(\), fe_one\(\)\];', 'let mut q = vec![fe_zero(), fe_one()];', 1),     # E3c: array passed as a slice -> Vec
+                     (r'Vec<F>', 'Vec<Fe>', 1)],
+           sig='''
+requires
+    start <= end,
+    (end - start) as int + 3 <= usize::MAX as int,        // derived: the product of (end - start) linear factors must be addressable
+ensures
+    r@.len() >= 1,
+    // the value of the result at ANY point x is prod_{i in [start, end)} (x - i)  (mod p)
+    forall|x: int| cong(#[trigger] qsum(r@, x, r@.len() as int), range_prod(x, start as int, end as int)),
+''',
+           loops={0: '''
+invariant
+    start <= i <= end,
+    (end - start) as int + 3 <= usize::MAX as int,
+    q@.len() == 2,
+    fe_v(q@[1]) == 1,
+    p@.len() >= 1,
+    p@.len() <= (i - start) + 1,
+    spec_deg(p@) + 1 == p@.len(),
+    forall|x: int| cong(#[trigger] qsum(p@, x, p@.len() as int), range_prod(x, start as int, i as int)),
+'''},
+           before=[('for i in start..end', '''
+    broadcast use axiom_fe_range;
+    lemma_trim_zeros(p@, 1);
+    assert forall|x: int| cong(#[trigger] qsum(p@, x, p@.len() as int), range_prod(x, start as int, start as int)) by {
+        lemma_pow0(x); lemma_cong_refl(1);
+        assert(qsum(p@, x, 1) == qsum(p@, x, 0) + fe_v(p@[0]) * pow(x, 0));
+    }
+'''), ('p = poly_mul_monomial(&p, &q)', '''
+    broadcast use axiom_fe_range, axiom_fe_mk;
+    let pp = p@; let qq = q@;
+    // q = [-i, 1] has degree 1
+    assert(trim(qq, 2) == 2);
+    lemma_cong_mod(-((i as int) % P()));
+    lemma_cong_mod(i as int);
+    lemma_cong_neg((i as int) % P(), i as int);
+    lemma_cong_trans(fe_v(qq[0]), -((i as int) % P()), -(i as int));
+''')],
+           ghost_before=[('p = poly_mul_monomial(&p, &q)', 'let ghost pp0 = p@;\nlet ghost qq0 = q@;')],
+           after=[('p = poly_mul_monomial(&p, &q)', '''
+    broadcast use axiom_fe_range, axiom_fe_mk;
+    assert forall|x: int| cong(#[trigger] qsum(p@, x, p@.len() as int), range_prod(x, start as int, i as int + 1)) by {
+        theorem_poly_mul_value(p@, pp0, qq0, x, pp0.len() as int, 2);
+        // value of q = [-i, 1] at x is x - i (mod p)
+        lemma_pow0(x); lemma_pow1(x);
+        assert(qsum(qq0, x, 2) == fe_v(qq0[0]) * pow(x, 0) + fe_v(qq0[1]) * pow(x, 1)) by { assert(qsum(qq0, x, 0) == 0); assert(qsum(qq0, x, 1) == qsum(qq0, x, 0) + fe_v(qq0[0]) * pow(x, 0)); }
+        lemma_cong_refl(x);
+        lemma_cong_add(fe_v(qq0[0]), -(i as int), x, x);
+        assert(qsum(qq0, x, 2) == fe_v(qq0[0]) + x) by (nonlinear_arith) requires qsum(qq0, x, 2) == fe_v(qq0[0]) * pow(x, 0) + fe_v(qq0[1]) * pow(x, 1), pow(x, 0) == 1, pow(x, 1) == x, fe_v(qq0[1]) == 1;
+        lemma_cong_mul(qsum(pp0, x, pp0.len() as int), range_prod(x, start as int, i as int), qsum(qq0, x, 2), x - i as int);
+        lemma_cong_trans(qsum(p@, x, p@.len() as int), qsum(pp0, x, pp0.len() as int) * qsum(qq0, x, 2), range_prod(x, start as int, i as int) * (x - i as int));
+    }
+''')])
+    return u
+
+
+PRODUCT = '''
+// ---- the convolution of the coefficient sequences IS the product of the polynomials (pure algebra over the integers) -------
+// value of a coefficient function c(0..n) at x
+pub open spec fn csum(p: Seq<Fe>, q: Seq<Fe>, x: int, i: int, qs: int, n: int) -> int decreases n
+{ if n <= 0 { 0 } else { csum(p, q, x, i, qs, n - 1) + conv_upto(p, q, n - 1, i, qs) * pow(x, (n - 1) as nat) } }
+pub open spec fn qsum(q: Seq<Fe>, x: int, n: int) -> int decreases n
+{ if n <= 0 { 0 } else { qsum(q, x, n - 1) + fe_v(q[n - 1]) * pow(x, (n - 1) as nat) } }
+// contribution of row i restricted to coefficients < n:  sum_{k<n, 0<=k-i<qs} p[i] q[k-i] x^k
+pub open spec fn rowsum(p: Seq<Fe>, q: Seq<Fe>, x: int, i: int, qs: int, n: int) -> int decreases n
+{ if n <= 0 { 0 } else { rowsum(p, q, x, i, qs, n - 1) + (if 0 <= (n - 1) - i < qs { fe_v(p[i]) * fe_v(q[(n - 1) - i]) } else { 0 }) * pow(x, (n - 1) as nat) } }
+
+proof fn lemma_rowsum_low(p: Seq<Fe>, q: Seq<Fe>, x: int, i: int, qs: int, n: int)
+    requires 0 <= n <= i
+    ensures rowsum(p, q, x, i, qs, n) == 0
+    decreases n
+{ if n > 0 { lemma_rowsum_low(p, q, x, i, qs, n - 1); } }
+// for i <= n <= i + qs: rowsum == p[i] * x^i * qsum(q, x, n - i)
+proof fn lemma_rowsum_mid(p: Seq<Fe>, q: Seq<Fe>, x: int, i: int, qs: int, n: int)
+    requires 0 <= i <= n <= i + qs
+    ensures rowsum(p, q, x, i, qs, n) == fe_v(p[i]) * pow(x, i as nat) * qsum(q, x, n - i)
+    decreases n
+{
+    if n == i { lemma_rowsum_low(p, q, x, i, qs, n); assert(qsum(q, x, 0) == 0); assert(fe_v(p[i]) * pow(x, i as nat) * 0 == 0) by (nonlinear_arith); }
+    else {
+        lemma_rowsum_mid(p, q, x, i, qs, n - 1);
+        let j = n - 1 - i;
+        lemma_pow_adds(x, i as nat, j as nat);
+        let (a, xi, xj, b, s) = (fe_v(p[i]), pow(x, i as nat), pow(x, j as nat), fe_v(q[j]), qsum(q, x, j));
+        assert(a * xi * s + (a * b) * (xi * xj) == a * xi * (s + b * xj)) by (nonlinear_arith);
+    }
+}
+proof fn lemma_rowsum_high(p: Seq<Fe>, q: Seq<Fe>, x: int, i: int, qs: int, n: int)
+    requires 0 <= i, 0 <= qs, i + qs <= n
+    ensures rowsum(p, q, x, i, qs, n) == fe_v(p[i]) * pow(x, i as nat) * qsum(q, x, qs)
+    decreases n
+{ if n == i + qs { lemma_rowsum_mid(p, q, x, i, qs, n); } else { lemma_rowsum_high(p, q, x, i, qs, n - 1); } }
+// adding row i to the coefficient function adds its rowsum to the value
+proof fn lemma_csum_step(p: Seq<Fe>, q: Seq<Fe>, x: int, i: int, qs: int, n: int)
+    requires 0 <= i, 0 <= n
+    ensures csum(p, q, x, i + 1, qs, n) == csum(p, q, x, i, qs, n) + rowsum(p, q, x, i, qs, n)
+    decreases n
+{
+    if n > 0 {
+        lemma_csum_step(p, q, x, i, qs, n - 1);
+        let k = n - 1;
+        let t = if 0 <= k - i < qs { fe_v(p[i]) * fe_v(q[k - i]) } else { 0 };
+        assert(conv_upto(p, q, k, i + 1, qs) == conv_upto(p, q, k, i, qs) + t);
+        assert((conv_upto(p, q, k, i, qs) + t) * pow(x, k as nat) == conv_upto(p, q, k, i, qs) * pow(x, k as nat) + t * pow(x, k as nat)) by (nonlinear_arith);
+    }
+}
+proof fn lemma_csum_zero(p: Seq<Fe>, q: Seq<Fe>, x: int, qs: int, n: int)
+    requires 0 <= n
+    ensures csum(p, q, x, 0, qs, n) == 0
+    decreases n
+{ if n > 0 { lemma_csum_zero(p, q, x, qs, n - 1); assert(0 * pow(x, (n - 1) as nat) == 0); } }
+// THE PRODUCT FORMULA: sum_k conv(p,q,k) x^k == (sum_i p[i] x^i) * (sum_j q[j] x^j)   for n >= ps + qs - 1 coefficients
+proof fn lemma_conv_is_product(p: Seq<Fe>, q: Seq<Fe>, x: int, i: int, qs: int, n: int)
+    requires 0 <= i, 0 <= qs, 0 <= n, i + qs <= n + 1
+    ensures csum(p, q, x, i, qs, n) == qsum(p, x, i) * qsum(q, x, qs)
+    decreases i
+{
+    if i == 0 { lemma_csum_zero(p, q, x, qs, n); assert(0 * qsum(q, x, qs) == 0); }
+    else {
+        lemma_conv_is_product(p, q, x, i - 1, qs, n);
+        lemma_csum_step(p, q, x, i - 1, qs, n);
+        lemma_rowsum_high(p, q, x, i - 1, qs, n);
+        let (s, a, xi, t) = (qsum(p, x, i - 1), fe_v(p[i - 1]), pow(x, (i - 1) as nat), qsum(q, x, qs));
+        assert(s * t + a * xi * t == (s + a * xi) * t) by (nonlinear_arith);
+    }
+}
+
+// coefficient-wise congruence lifts to the values
+proof fn lemma_cong_sums(r: Seq<Fe>, p: Seq<Fe>, q: Seq<Fe>, x: int, ps: int, qs: int, n: int)
+    requires 0 <= n <= r.len(), forall|k: int| 0 <= k < n ==> cong(fe_v(#[trigger] r[k]), conv_upto(p, q, k, ps, qs))
+    ensures cong(qsum(r, x, n), csum(p, q, x, ps, qs, n))
+    decreases n
+{
+    if n <= 0 { lemma_cong_refl(0); }
+    else {
+        lemma_cong_sums(r, p, q, x, ps, qs, n - 1);
+        let xk = pow(x, (n - 1) as nat);
+        lemma_cong_refl(xk);
+        lemma_cong_mul(fe_v(r[n - 1]), conv_upto(p, q, n - 1, ps, qs), xk, xk);
+        lemma_cong_add(qsum(r, x, n - 1), csum(p, q, x, ps, qs, n - 1), fe_v(r[n - 1]) * xk, conv_upto(p, q, n - 1, ps, qs) * xk);
+    }
+}
+// coefficients that are congruent to zero do not change the value
+proof fn lemma_csum_tail(p: Seq<Fe>, q: Seq<Fe>, x: int, ps: int, qs: int, n: int, m: int)
+    requires 0 <= n <= m, forall|k: int| n <= k < m ==> cong(0, #[trigger] conv_upto(p, q, k, ps, qs))
+    ensures cong(csum(p, q, x, ps, qs, n), csum(p, q, x, ps, qs, m))
+    decreases m - n
+{
+    if m == n { lemma_cong_refl(csum(p, q, x, ps, qs, n)); }
+    else {
+        lemma_csum_tail(p, q, x, ps, qs, n, m - 1);
+        let xk = pow(x, (m - 1) as nat);
+        lemma_cong_refl(xk);
+        lemma_cong_mul(0, conv_upto(p, q, m - 1, ps, qs), xk, xk);
+        assert(0 * xk == 0);
+        lemma_cong_add(csum(p, q, x, ps, qs, n), csum(p, q, x, ps, qs, m - 1), 0, conv_upto(p, q, m - 1, ps, qs) * xk);
+    }
+}
+// THEOREM (over the contract of poly_mul_monomial): the value of the result at any x is the product of the values of the
+// (degree-trimmed) inputs, modulo p
+proof fn theorem_poly_mul_value(r: Seq<Fe>, p: Seq<Fe>, q: Seq<Fe>, x: int, ps: int, qs: int)
+    requires
+        1 <= ps, 1 <= qs, 1 <= r.len() <= ps + qs,
+        forall|k: int| 0 <= k < r.len() ==> cong(fe_v(#[trigger] r[k]), conv_upto(p, q, k, ps, qs)),
+        forall|k: int| r.len() <= k < ps + qs ==> cong(0, #[trigger] conv_upto(p, q, k, ps, qs)),
+    ensures cong(qsum(r, x, r.len() as int), qsum(p, x, ps) * qsum(q, x, qs))
+{
+    let n = r.len() as int;
+    lemma_cong_sums(r, p, q, x, ps, qs, n);
+    lemma_csum_tail(p, q, x, ps, qs, n, ps + qs);
+    lemma_conv_is_product(p, q, x, ps, qs, ps + qs);
+    lemma_cong_trans(qsum(r, x, n), csum(p, q, x, ps, qs, n), csum(p, q, x, ps, qs, ps + qs));
+}
+'''
+
+
+def unit_product():
+    """Pure algebra: the coefficient convolution that poly_mul_monomial is proved to compute is the polynomial product."""
+    u = VUnit('poly_product', 'convolution of coefficients == product of polynomial values (lemma over the poly_mul_monomial contract)')
+    u.raw(FE_PRELUDE, 'abstract-field')
+    u.raw(PRELUDE, 'prelude')
+    u.raw(PRODUCT, 'product')
     return u
